@@ -10,11 +10,6 @@ namespace CaddyModel.C12
 /-- `rawCfg` is the map `{"config": d}` or — after `DELETE /config/` — the empty map -/
 def RootShape (r : Json) : Prop := r = .obj [] ∨ ∃ d, r = .obj [(cfgKey, d)]
 
-/-- the `config` key is present in `rawCfg` -/
-def hasCfgKey : Json → Bool
-  | .obj kvs => (lookup cfgKey kvs).isSome
-  | _ => false
-
 theorem arrayOp_fst_eq (m : Method) (ell : Bool) (val : Json) (idxStr : Bytes) (arr : List Json) :
     ∃ arr', (arrayOp m ell val idxStr arr).1 = arr' := ⟨_, rfl⟩
 
@@ -108,16 +103,28 @@ theorem access_no_panic (m : Method) (path : Bytes) (body : Body) (root : Json) 
     · simp
     · exact trav_no_panic _ _ _ _ _
 
-theorem restore_eq {s : State} {root : Json} (hi : Inv s) (hr : RootShape root) (hk : hasCfgKey s.rawCfg = true) :
-    restore s root = s := by
-  have h1 := cfgOf_root_eq hi.shape hk
+theorem eraseCfg_root {root : Json} (h : RootShape root) : eraseCfg root = .obj [] := by
+  rcases h with h | ⟨d, h⟩ <;> subst h <;> simp [eraseCfg, eraseKey]
+
+theorem root_nokey {root : Json} (h : RootShape root) (hk : hasCfgKey root = false) : root = .obj [] := by
+  rcases h with h | ⟨d, h⟩ <;> subst h
+  · rfl
+  · simp [hasCfgKey, lookup] at hk
+
+/-- `restoreOldCfg` puts back exactly what was there -/
+theorem restore_eq {s : State} {root : Json} (hi : Inv s) (hr : RootShape root) : restore s root = s := by
   unfold restore
-  rw [setCfg_root hr, ← hi.doc, ← h1]
+  cases hk : hasCfgKey s.rawCfg with
+  | true =>
+    have h1 := cfgOf_root_eq hi.shape hk
+    simp only [if_true]
+    rw [setCfg_root hr, ← hi.doc, ← h1]
+  | false =>
+    simp only [Bool.false_eq_true, if_false]
+    rw [eraseCfg_root hr, ← root_nokey hi.shape hk]
 
 theorem restore_inv {s : State} {root : Json} (hi : Inv s) (hr : RootShape root) : Inv (restore s root) := by
-  unfold restore
-  rw [setCfg_root hr]
-  exact ⟨Or.inr ⟨_, rfl⟩, by simp [cfgOf, lookup, encodeOf], hi.idx, hi.run, hi.clean⟩
+  rw [restore_eq hi hr]; exact hi
 
 theorem commit_inv {env : Env} {force : Bool} {s : State} {root : Json} (hi : Inv s) (hr : RootShape root) :
     Inv (commit env force s root).1 := by
@@ -138,7 +145,7 @@ theorem commit_inv {env : Env} {force : Bool} {s : State} {root : Json} (hi : In
 
 /-- the exits of `commit` that are not "loaded" or "unchanged" put everything back -/
 theorem commit_rejected {env : Env} {force : Bool} {s : State} {root : Json} (hi : Inv s) (hr : RootShape root)
-    (hk : hasCfgKey s.rawCfg = true) (h : (commit env force s root).2 ≠ .ok) (h' : (commit env force s root).2 ≠ .same) :
+    (h : (commit env force s root).2 ≠ .ok) (h' : (commit env force s root).2 ≠ .same) :
     (commit env force s root).1 = s := by
   unfold commit at h h' ⊢
   split
@@ -146,11 +153,11 @@ theorem commit_rejected {env : Env} {force : Bool} {s : State} {root : Json} (hi
   · next hc =>
     simp only [hc] at h h'
     split
-    · exact restore_eq hi hr hk
+    · exact restore_eq hi hr
     · next idx hidx =>
       simp only [hidx] at h h'
       split
-      · exact restore_eq hi hr hk
+      · exact restore_eq hi hr
       · next hacc => simp [hacc] at h
 
 theorem mutate_inv {env : Env} {m : Method} {path : Bytes} {body : Body} {force : Bool} {s : State}
@@ -165,7 +172,7 @@ theorem mutate_inv {env : Env} {m : Method} {path : Bytes} {body : Body} {force 
   · next root out heq => rw [heq] at hr; exact commit_inv hi hr
 
 theorem mutate_rejected {env : Env} {m : Method} {path : Bytes} {body : Body} {force : Bool} {s : State}
-    (hi : Inv s) (hp : underConfig path) (hk : hasCfgKey s.rawCfg = true)
+    (hi : Inv s) (hp : underConfig path)
     (h : (mutate env m path body force s).2 ≠ .ok) (h' : (mutate env m path body force s).2 ≠ .same) :
     (mutate env m path body force s).1 = s := by
   unfold mutate at h h' ⊢
@@ -177,7 +184,7 @@ theorem mutate_rejected {env : Env} {m : Method} {path : Bytes} {body : Body} {f
   · next root heq => exact absurd (by rw [heq]) (access_no_panic m path body s.rawCfg)
   · next root out heq =>
     rw [heq] at hr h h'
-    exact commit_rejected hi hr hk h h'
+    exact commit_rejected hi hr h h'
 
 theorem change_inv {env : Env} {m : Method} {path : Bytes} {body : Body} {ifm : Bytes} {force : Bool} {s : State}
     (hi : Inv s) (hp : underConfig path) : Inv (change env m path body ifm force s).1 := by
@@ -196,12 +203,12 @@ theorem change_inv {env : Env} {m : Method} {path : Bytes} {body : Body} {ifm : 
       · exact hi
 
 theorem change_rejected {env : Env} {m : Method} {path : Bytes} {body : Body} {ifm : Bytes} {force : Bool} {s : State}
-    (hi : Inv s) (hp : underConfig path) (hk : hasCfgKey s.rawCfg = true)
+    (hi : Inv s) (hp : underConfig path)
     (h : (change env m path body ifm force s).2 ≠ .ok) (h' : (change env m path body ifm force s).2 ≠ .same) :
     (change env m path body ifm force s).1 = s := by
   unfold change at h h' ⊢
   split
-  · next hc => simp only [hc, if_true] at h h'; exact mutate_rejected hi hp hk h h'
+  · next hc => simp only [hc, if_true] at h h'; exact mutate_rejected hi hp h h'
   · next hc =>
     simp only [hc, if_false] at h h'
     split
@@ -218,7 +225,7 @@ theorem change_rejected {env : Env} {m : Method} {path : Bytes} {body : Body} {i
           simp only [heq] at h h'
           split
           · rfl
-          · next hne => simp only [hne, if_false] at h h'; exact mutate_rejected hi hp hk h h'
+          · next hne => simp only [hne, if_false] at h h'; exact mutate_rejected hi hp h h'
       · rfl
 
 end CaddyModel.C12
